@@ -38,6 +38,7 @@
 #include <iostream>
 #include <iomanip>
 #include <typeinfo>
+#include <type_traits>
 
 #include "soplex/spxdefines.h"
 #include "soplex/basevectors.h"
@@ -1872,7 +1873,8 @@ public:
       SVectorBase<R>& row = rowVector_w(i);
       SVectorBase<R>& col = colVector_w(j);
 
-      if(isNotZero(val, this->tolerances()->epsilon()))
+      // rational data is exact: only an exact zero removes the element
+      if(std::is_same<R, Rational>::value ? (val != 0) : isNotZero(val, this->tolerances()->epsilon()))
       {
          R newVal;
 
@@ -1915,7 +1917,8 @@ public:
       SVectorBase<R>& row = rowVector_w(i);
       SVectorBase<R>& col = colVector_w(j);
 
-      if(mpq_get_d(*val) != R(0))
+      // test the exact value: a tiny rational must not be treated as zero
+      if(mpq_sgn(*val) != 0)
       {
          if(row.pos(j) >= 0 && col.pos(i) >= 0)
          {
